@@ -51,6 +51,11 @@ type consumer struct {
 	// extra consumer-specific variants (same classes where possible)
 	extra   []variant
 	bulkDiv int // divide the bulk count (expensive consumers)
+	// keyStore: the consumer consults the node's key store while choosing the verification key; the decorator through which the harness
+	// lets that key store fail (v1_test.go). The structured variant list is presented again under every fault mode.
+	keyStore *ksFault
+	// faultStride > 1: under faults only every n-th variant of the classes not signed by a foreign key is presented (second endpoint of the same code)
+	faultStride int
 }
 
 func newP256() *ecdsa.PrivateKey {
@@ -139,6 +144,8 @@ type vcrWorld struct {
 	issuer string // DID of a subject on the node
 	second string // DID of another subject on the node
 	other  *party // did:jwk party (resolvable by every node, key owned by the harness)
+	// v1Foreign: per foreign signer of the v1 access token variants, whether the node's own key resolver finds that key (v1_test.go)
+	v1Foreign map[string]string
 }
 
 func newVCRWorld(t *testing.T) *vcrWorld {
